@@ -168,6 +168,9 @@ def _registry():
     reg("npFalse", lambda: np.False_)
     reg("cplx", lambda: 1.5 + 0.1j)
     reg("c128", lambda: np.complex128(1.5 + 0.1j))
+    reg("cplx-neg", lambda: 1.5 - 0.1j)
+    reg("cplx-negzero", lambda: complex(1.5, -0.0))
+    reg("c64-neg", lambda: np.complex64(1.5 - 0.25j))
     reg("str:par", lambda: "par")
     reg("str:odd", lambda: "r.0:x y")
     reg("str:num", lambda: "1e3")
@@ -185,6 +188,8 @@ def _registry():
     reg("P:U-int", lambda: Uniform(0, 1))
     reg("P:U-named", lambda: Uniform(0.25, 0.75, guess=0.3, name="par"))
     reg("P:U-inf", lambda: Uniform(-np.inf, np.inf))
+    reg("P:U-huge", lambda: Uniform(-1e308, 1e308))
+    reg("P:U-huge-same", lambda: Uniform(1e307, 1.5e308))
     reg("P:G", G)
     reg("P:G-named", lambda: Gaussian(0.5, 0.25, name="g"))
     reg("P:BG", lambda: BoundedGaussian(1.5, 0.1, 1.0, 2.0, name="bg"))
@@ -425,8 +430,9 @@ def _registry():
 REAL = ["0.5", "1/3", "1e-300", "1e300", "-0.0", "int2", "f64", "f32", "i64"]
 POS = ["0.5", "1/3", "1e-300", "1e300", "int2", "f64", "f32", "i64"]
 OPT = ["1e-300", "f64", "f32", "int2"]              # numeric option values
-CPLX = ["cplx", "c128"]
-PRI_R = ["P:U", "P:U-int", "P:U-named", "P:U-inf", "P:G", "P:G-named",
+CPLX = ["cplx", "c128", "cplx-neg", "cplx-negzero", "c64-neg"]
+PRI_R = ["P:U", "P:U-int", "P:U-named", "P:U-inf", "P:U-huge",
+         "P:U-huge-same", "P:G", "P:G-named",
          "P:BG", "P:BG-open", "P:add", "P:mul", "P:sub", "P:neg", "P:div",
          "P:rdiv", "P:pow", "P:rpow", "P:addP", "P:sqrt", "P:max",
          "P:sq-shared", "P:exp-named", "P:chain"]
@@ -1096,7 +1102,9 @@ def _roundtrip(target, obj, tmpdir, counter):
             return text.encode(), yaml.load(text, Loader=FullLoader)
         except Exception as e:
             raise _StepFail("load", e)
-    path = os.path.join(tmpdir, "o%d.yaml" % counter[0])
+    # file names alternate between a name with and one without an extension
+    path = os.path.join(tmpdir, ("o%d.yaml" if counter[0] % 2 else "o%d")
+                        % counter[0])
     try:
         if target == "file":
             hp.save(path, obj)
@@ -1129,7 +1137,8 @@ def _dump_only(target, obj, tmpdir, counter):
     counter[0] += 1
     if target == "yaml":
         return yaml.dump(obj).encode()
-    path = os.path.join(tmpdir, "o%d.yaml" % counter[0])
+    path = os.path.join(tmpdir, ("o%d.yaml" if counter[0] % 2 else "o%d")
+                        % counter[0])
     if target == "file":
         hp.save(path, obj)
     else:
